@@ -60,14 +60,17 @@ def check_routes(c):
     """C03: both spaces and all solvers give the same latent space up to the sign of each component (separated spectra)"""
     rng = np.random.default_rng(c['seed']); n, m, p, k = c['n'], c['m'], c['p'], c['k']
     X, Y = data(rng, n, m, p)
-    ref = quiet(fit(mixing=c['mixing'], n_components=k, space='sample', svd_solver='full', tol=1e-12).fit, X, Y)
+    from sklearn.linear_model import Ridge
+    ra = [1e-6, 3.0, 25.0][c['seed'] % 3]            # every admissible regressor: also strongly regularised ones (Yhat differs visibly from the projection of Y)
+    mkreg = lambda: Ridge(alpha=ra, fit_intercept=False, tol=1e-12)
+    ref = quiet(fit(mixing=c['mixing'], n_components=k, space='sample', svd_solver='full', tol=1e-12, regressor=mkreg()).fit, X, Y)
     ev = ref.singular_values_ ** 2
     if not separated(ev, 1e-2) or ev[-1] < 1e-6 * ev[0]: return
     Tref = quiet(ref.transform, X)
     for space in ('feature', 'sample'):
         for solver in ('full', 'arpack', 'randomized'):
             if solver == 'arpack' and k >= min(n, m): continue
-            e = quiet(fit(mixing=c['mixing'], n_components=k, space=space, svd_solver=solver, tol=1e-12, random_state=0).fit, X, Y)
+            e = quiet(fit(mixing=c['mixing'], n_components=k, space=space, svd_solver=solver, tol=1e-12, random_state=0, regressor=mkreg()).fit, X, Y)
             T = sign_align(Tref, quiet(e.transform, X))
             tolr = 1e-5 if solver == 'full' else 1e-3
             expect(np.allclose(T, Tref, atol=tolr * max(1.0, np.abs(Tref).max())), f'post[C03]:latent-projections-agree-with-the-sample-space-full-solver-up-to-sign[{space},{solver}]', f"max dev {np.max(np.abs(T - Tref))}")
@@ -75,8 +78,7 @@ def check_routes(c):
                 expect(np.allclose(quiet(e.predict, X), quiet(ref.predict, X), atol=1e-5 * max(1, np.abs(Y).max())), f'post[C03]:predictions-agree-between-routes[{space}]')
                 expect(np.allclose(quiet(e.inverse_transform, quiet(e.transform, X)), quiet(ref.inverse_transform, Tref), atol=1e-5 * max(1, np.abs(X).max())), f'post[C03]:reconstructions-agree-between-routes[{space}]')
     # documented projectors (sample space), regressor without intercept
-    from sklearn.linear_model import Ridge
-    reg = Ridge(alpha=1e-6, fit_intercept=False, tol=1e-12).fit(X, Y)
+    reg = mkreg().fit(X, Y)
     W = reg.coef_.T.reshape(m, -1); Yh = X @ W
     a = c['mixing']
     Kt = a * X @ X.T + (1 - a) * Yh @ Yh.T
@@ -107,13 +109,15 @@ def check_mixing(c):
             expect(np.allclose(quiet(e0.predict, X), reg.predict(X).reshape(n, -1), atol=1e-5 * max(1, np.abs(Y).max())), f'post[C04]:mixing-zero-reproduces-the-linear-regression-predictions[{space}]',
                    f"max dev {np.max(np.abs(quiet(e0.predict, X) - reg.predict(X).reshape(n, -1)))}")
     # optimality against competitor subspaces and monotonicity in the mixing
-    reg = Ridge(alpha=1e-6, fit_intercept=False, tol=1e-12).fit(X, Y); Yh = reg.predict(X).reshape(n, -1)
+    ra = [1e-6, 25.0][c['seed'] % 2]
+    reg = Ridge(alpha=ra, fit_intercept=False, tol=1e-12).fit(X, Y); Yh = reg.predict(X).reshape(n, -1)
+    ospace = ['sample', 'feature'][(c['seed'] // 2) % 2]
     def losses(Q):
         Pq = Q @ Q.T
         return np.linalg.norm(X - Pq @ X) ** 2, np.linalg.norm(Yh - Pq @ Yh) ** 2
     prev = None
     for a in (0.05, 0.3, 0.6, 0.95):
-        e = quiet(fit(mixing=a, n_components=k, space='sample', svd_solver='full', tol=1e-12).fit, X, Y)
+        e = quiet(fit(mixing=a, n_components=k, space=ospace, svd_solver='full', tol=1e-12, regressor=Ridge(alpha=ra, fit_intercept=False, tol=1e-12)).fit, X, Y)
         T = quiet(e.transform, X); Q, _ = np.linalg.qr(T)
         lx, ly = losses(Q); obj = a * lx + (1 - a) * ly
         for t in range(6):
